@@ -186,7 +186,12 @@ def r9(run, ctx):
                     'kill_process' in norm_text(e.value):
                 return True
             return None
-        ok = guarded(cfg, s.node, dead_test, True) or guarded(cfg, s.node, kill_ok, True)
+        def alive_call(e):
+            # Process.is_alive() = Popen.poll() is None: false means the child was collected
+            return True if isinstance(e, ast.Call) and astq.call_last(e) == 'is_alive' and \
+                not e.args else None
+        ok = guarded(cfg, s.node, dead_test, True) or guarded(cfg, s.node, kill_ok, True) or \
+            guarded(cfg, s.node, alive_call, False)
         run.check('R9', ok, '%s waits synchronously only for a child known to be gone'
                   % caller.qualname, caller, s.node.ast,
                   '%s calls reap_process(pid) without knowing that the child is dead (no dead-'
